@@ -87,7 +87,7 @@ def run_checks(name, ids, tier="quick"):
             raise SystemExit("patch does not apply: " + r.stderr)
         for pid in ids:
             env = dict(os.environ, VERIF_REPO_SRC=os.path.join(w, "src"), VERIF_EVIDENCE_DIR=os.path.join(w, "..", "evidence"),
-                       VERIF_RUN_DIR=os.path.join(w, "..", "run"))
+                       VERIF_RUN_DIR=os.path.join(w, "..", "run"), VERIF_NO_SHRINK="1")
             r = subprocess.run([os.path.join(V, "vcheck"), pid, "--tier", tier], capture_output=True, text=True, env=env)
             clause = next((l.strip() for l in r.stdout.splitlines() if l.strip().startswith("clause=")), "")
             res[pid] = {"exit": r.returncode, "tier": tier, "clause": clause.split(" ")[0], "summary": r.stdout.strip().splitlines()[-1][:200] if r.stdout.strip() else r.stderr[-200:]}
@@ -106,8 +106,13 @@ def main():
         run_checks(sys.argv[2], sys.argv[3:], tier)
     if sys.argv[1] == "matrix":
         tier = sys.argv[2] if len(sys.argv) > 2 else "quick"
+        only_missing = "--missing" in sys.argv
         for name in sorted(os.listdir(os.path.join(V, "seeded"))):
-            if os.path.exists(os.path.join(V, "seeded", name, "meta.json")):
+            mp = os.path.join(V, "seeded", name, "meta.json")
+            if os.path.exists(mp):
+                meta = json.load(open(mp))
+                if only_missing and meta["property"] in meta.get("checks", {}):
+                    continue
                 run_checks(name, [], tier)
 
 
